@@ -85,7 +85,8 @@ func TestVerif_C14_containers(t *testing.T) {
 			s.Crash(id, id, p, "")
 			continue
 		}
-		x.line = "c14dec " + st.Fmt + " " + verifh.Hex(string(st.Wire)) + " " + verifc14.Term(st.Fin)
+		// gzip / deflate: the model's INCREMENTAL reader (Auto.reader / pull) is read with the same sizes
+		x.line = "c14dec " + st.Fmt + " " + verifh.Hex(string(st.Wire)) + " " + verifc14.Term(st.Fin) + " " + verifh.IntList(sizes)
 		runs = append(runs, x)
 	}
 	// which streams leave the modelled subset (a flipped BTYPE makes a Huffman block)?
